@@ -7,6 +7,7 @@ import MoThreads.Driver.M1
 import MoThreads.Driver.M3
 import MoThreads.Driver.M4
 import MoThreads.Driver.M6
+import MoThreads.Driver.M5
 open MoThreads.Driver
 
 inductive Model
@@ -15,6 +16,7 @@ inductive Model
   | m3 (m : M3.Sim)
   | m4 (m : M4.Sim)
   | m6 (m : M6.Sim)
+  | m5 (m : M5.Sim)
 
 structure DState where
   runId : String := ""
@@ -38,6 +40,7 @@ def finish (d : DState) : IO Unit := do
     | .m3 m => IO.println s!"ok {d.runId} steps={m.steps}"
     | .m4 m => IO.println s!"ok {d.runId} steps={m.steps}"
     | .m6 m => IO.println s!"ok {d.runId} steps={m.steps}"
+    | .m5 m => IO.println s!"ok {d.runId} steps={m.steps}"
     | .none => IO.println s!"ok {d.runId} steps=0"
 
 def startRun (ws : List String) : Except String Model :=
@@ -47,6 +50,7 @@ def startRun (ws : List String) : Except String Model :=
     let rs := (kv rest "raises").splitOn "," |>.filterMap String.toNat?
     .ok (.m1 (M1.start never rs))
   | _ :: _ :: "m3" :: _ => .ok (.m3 M3.start)
+  | _ :: _ :: "m5" :: _ => .ok (.m5 M5.start)
   | _ :: _ :: "m6" :: rest => .ok (.m6 (M6.start ((kv rest "I").toNat?.getD 128)))
   | _ :: _ :: "m4" :: rest =>
     let mx := (kv rest "max").toNat?.getD 1024
@@ -94,6 +98,12 @@ partial def loop (h : IO.FS.Stream) (d : DState) : IO Unit := do
       | .m6 m =>
         match M6.feed m ws with
         | .ok m' => loop h { d with model := .m6 m' }
+        | .error e =>
+          IO.println s!"FAIL {d.runId} line={d.lineNo} {e}"
+          loop h { d with failed := true }
+      | .m5 m =>
+        match M5.feed m ws with
+        | .ok m' => loop h { d with model := .m5 m' }
         | .error e =>
           IO.println s!"FAIL {d.runId} line={d.lineNo} {e}"
           loop h { d with failed := true }
